@@ -97,8 +97,7 @@ func codecCases(tier string) []*codecCase {
 			}
 		}
 	}
-	nodes = append(nodes, univ.SNode{Schema: ref.Union(ref.Prim("null"), ref.Prim("long"), ref.Prim("string")), Chain: "union[null,long,string]"},
-		univ.SNode{Schema: ref.Array(ref.Prim("null")), Chain: "array>null"})
+	nodes = append(nodes, univ.SNode{Schema: ref.Union(ref.Prim("null"), ref.Prim("long"), ref.Prim("string")), Chain: "union[null,long,string]"})
 	var out []*codecCase
 	for _, n := range nodes {
 		rs := ref.Record("Top", ref.F("f", n.Schema))
@@ -111,8 +110,6 @@ func codecCases(tier string) []*codecCase {
 		switch n.Chain {
 		case "union[null,long,string]":
 			ft = nil
-		case "array>null":
-			ft = reflect.TypeOf([]*int64(nil))
 		default:
 			ft = univ.Targets(n.Schema, false)[0]
 		}
@@ -130,8 +127,6 @@ func codecCases(tier string) []*codecCase {
 		switch n.Chain {
 		case "union[null,long,string]":
 			cc.datums = []ref.Datum{ref.DUnion(0, ref.DNull()), ref.DUnion(2, ref.DString("str")), ref.DUnion(1, ref.DLong(-77))}
-		case "array>null":
-			cc.datums = []ref.Datum{ref.DArray(), ref.DArray(ref.DNull(), ref.DNull())}
 		default:
 			cc.datums = univ.Datums(n.Schema, false)
 		}
@@ -169,8 +164,13 @@ func zeroSizeFlood(input []byte) bool {
 	return true
 }
 
+// zeroSizeItems: the schema chain starts with an array whose items can encode to zero bytes.
+func zeroSizeItems(chain string) bool {
+	return chain == "array>null" || chain == "array>emptyrec" || strings.HasPrefix(chain, "array>null") || strings.HasPrefix(chain, "array>emptyrec")
+}
+
 func (cc *codecCase) offer(c *fw.Ctx, mut string, input []byte) {
-	if cc.node.Chain == "array>null" && zeroSizeFlood(input) {
+	if zeroSizeItems(cc.node.Chain) && zeroSizeFlood(input) {
 		c.Count("zero_size_item_floods_not_offered", 1)
 		return
 	}
@@ -396,6 +396,10 @@ func fileTasks(tier string) []task {
 		if len(f.Data) > 400 {
 			continue
 		}
+		if f.SC.Name == "T0" {
+			// zero-byte records: a block legitimately declares any number of them (zero-size flood, see assumptions)
+			continue
+		}
 		ts = append(ts, task{"file-mutations " + f.Name, func(c *fw.Ctx) {
 			n := 0
 			offer := func(mut string, data []byte) {
@@ -481,7 +485,7 @@ func fileTasks(tier string) []task {
 	// structural cases
 	ts = append(ts, task{"file-structural", func(c *fw.Ctx) {
 		n := 0
-		sc := filedrv.Schemas()[0]
+		sc := filedrv.Schemas()[1]
 		schemaJSON := sc.Schema.Print(nil)
 		payload := ref.Encode(sc.Schema, sc.Records[0])
 		offer := func(mut string, data []byte) {
